@@ -10,10 +10,16 @@ def body(c):
     maxn = 4 if c.quick else 5
     states = argbind.enumerate_states(c, maxn)
     stats = collections.Counter()
+    # the keyword no parameter has (index 0 in ArgBinding.tla) is spelled in several ways: through ** expansion any string is a
+    # legal keyword, also the names filter_args uses itself for the variadic parameters
+    spelled = []
     for st in states:
+        for fk in (("zz", "*", "**", "self") if 0 in st["kw"] and st["res"][0] == "ok" else ("zz",)):
+            spelled.append((st, fk))
+    for st, fk in spelled:
         sig = st["sig"]
         f, names, src, _ = argbind.build(sig)
-        args, kwargs = argbind.call_of(st, names)
+        args, kwargs = argbind.call_of(st, names, foreign=fk)
         cp = argbind.cpython_binding(f, sig, names, args, kwargs)
         stats["states"] += 1
         # the oracle is doubly anchored: the TLA+ transcription must agree with what CPython really does
@@ -21,13 +27,14 @@ def body(c):
             raise tlc.TLCError("ArgBinding.tla disagrees with CPython on acceptance: %s args=%s kwargs=%s spec=%s" % (src, args, kwargs, st["res"][0]))
         if cp is None:
             stats["rejected_by_python"] += 1; continue
-        exp = argbind.expected(st, names)
+        exp = argbind.expected(st, names, foreign=fk)
         if cp != exp:
             raise tlc.TLCError("ArgBinding.tla disagrees with CPython on the binding: %s args=%s kwargs=%s spec=%s cpython=%s" % (src, args, kwargs, exp, cp))
         stats["accepted"] += 1
         variants = [("function", f, args, exp)]
         fm, _, srcm, inst = argbind.build(sig, method=True)
-        variants.append(("bound_method", fm, args, dict(exp, self=inst)))
+        if fk != "self":          # (a bound method's own first parameter is called self: Python rejects that keyword there)
+            variants.append(("bound_method", fm, args, dict(exp, self=inst)))
         for vname, fn, a, e in variants:
             ignores = [[]] + [[k] for k in e]
             if len(e) >= 2: ignores.append(sorted(e)[:2])
@@ -51,13 +58,28 @@ def body(c):
                                 (key["signature"], st["npos"], sorted(kwargs), ign, got, want), {})
                 else:
                     stats["ok"] += 1
+        # the same function OBJECT with its defaults redefined in place (what a reloading tool does): the binding follows
+        if fk == "zz" and (f.__defaults__ or f.__kwdefaults__):
+            if f.__defaults__: f.__defaults__ = tuple(("redefined", j) for j in range(len(f.__defaults__)))
+            if f.__kwdefaults__: f.__kwdefaults__ = {k: ("redefined", k) for k in f.__kwdefaults__}
+            cp2 = argbind.cpython_binding(f, sig, names, args, kwargs)
+            c.evaluations += 1
+            key = {"signature": src, "npos": st["npos"], "kw": sorted(kwargs), "variant": "defaults_redefined_in_place"}
+            try:
+                got2 = filter_args(f, [], args, dict(kwargs))
+                if cp2 is None or got2 != cp2:
+                    c.violation(key, "C07: after __defaults__ / __kwdefaults__ of the function object were replaced, filter_args binds %s, Python binds %s: %s args=%d positional, keywords=%s" %
+                                (got2, cp2, src, st["npos"], sorted(kwargs)), {})
+            except Exception as ex:
+                if cp2 is not None:
+                    c.violation(key, "C07: after the defaults of the function object were replaced filter_args raises %s for a call Python accepts: %s" % (type(ex).__name__, src), {"exception": repr(ex)[:300]})
         c.nontrivial.add((src, st["npos"], tuple(sorted(kwargs))))
         if stats["accepted"] % 997 == 1:
             c.sample({"signature": src, "positional": st["npos"], "keywords": sorted(kwargs), "python_binds": {k: str(v) for k, v in exp.items()}})
     c.extra["stats"] = dict(stats)
     c.exhaustive = True
     c.rule = ("TLC enumerates every (signature, call shape) of ArgBinding.tla with <= %d parameters over the 5 kinds x default/no default "
-              "(0..n+1 positionals, every subset of parameter-named keywords plus one foreign keyword); each state whose call Python accepts "
+              "(0..n+1 positionals, every subset of parameter-named keywords plus one foreign keyword, spelled 'zz', '*', '**' and 'self'); each state whose call Python accepts "
               "becomes implementation tests of filter_args (plain function and bound method, ignore lists: none, each single name, one pair); "
               "distinct = (signature, call shape) accepted by Python" % maxn)
     c.assumptions += ["oracle = ArgBinding.tla, cross-checked on every state against the real binding performed by CPython (a function that returns its own parameters)"]
